@@ -19,6 +19,45 @@ Open Scope N_scope.
 '''
 
 
+FRESH_SCRIPT = r'''
+import sys, json, random
+sys.path.insert(0, %(harness)r); sys.path.insert(0, %(translate)r)
+import env, gen, render_common as rc
+lang, seed = sys.argv[1], int(sys.argv[2])
+rng = random.Random(seed)
+b = rc.licensed_batch(rng, lang, n=2, with_failed=False)
+b[0][0].tree.leaves[0].token['word'] = rng.choice(['(', ')', '[', '{', '}'])       # the first word this process prints is a bracket
+fs = rc.cli_formats()[0][lang]
+first = {f: rc.render(lang, b, f) for f in fs}       # the first rendering of each format in the life of this process
+second = {f: rc.render(lang, b, f) for f in fs}
+third = {f: rc.render(lang, rc.fresh(b), f) for f in fs}
+bad = [f for f in fs if not (first[f] == second[f] == third[f])]
+print(json.dumps({'bad': bad, 'detail': {f: [str(first[f][1])[:300], str(second[f][1])[:300]] for f in bad}}))
+'''
+
+
+def fresh_process_renderings(ctx):
+    """repeatability from the first rendering on: in a NEW interpreter the first, the second rendering of the same objects and the rendering
+    of a fresh copy agree (state that is set up on first use - module-level iterators, lazily filled tables - would show here only)"""
+    import json, os, subprocess, sys, env
+    sf = os.path.join(ctx.work, 'fresh_script.py')
+    open(sf, 'w').write(FRESH_SCRIPT % {'harness': env.HARNESS, 'translate': os.path.join(env.VERIF, 'translate')})
+    procs = [(lang, k, subprocess.Popen([sys.executable, '-B', sf, lang, str(ctx.seed * 100 + k)], stdout=subprocess.PIPE, stderr=subprocess.DEVNULL, text=True))
+             for lang in ('en', 'ja') for k in range(2 if ctx.quick else 8)]
+    for lang, k, p in procs:
+        o, _ = p.communicate()
+        try:
+            r = json.loads(o.strip().splitlines()[-1])
+        except Exception:      # noqa
+            ctx.obligation('fresh-interpreter rendering ran', False, f'{lang} #{k}: no result ({o[-300:]!r})')
+            continue
+        ctx.case(('fresh-process', lang, k), nontrivial=True)
+        ctx.count('fresh_process_renderings')
+        for f in r['bad']:
+            ctx.fail('first_rendering_differs', f'[{lang}] in a fresh interpreter the first rendering as {f!r} differs from the second rendering of the same objects / '
+                     f'from a fresh copy: {r["detail"][f][0]!r} vs {r["detail"][f][1]!r}', {'lang': lang, 'format': f, 'seed': ctx.seed * 100 + k, 'kind': 'fresh-process'})
+
+
 def batches(ctx, lang):
     rng = ctx.rng
     n = 70 if ctx.quick else 900
@@ -46,6 +85,17 @@ def batches(ctx, lang):
                             if rng.random() < 0.5:
                                 tok['base'] = tok.get('lemma', tok['word'])
             kind += '+jigg-named-tokens'
+        elif rng.random() < 0.3:
+            # free-form annotations whose names coincide with attribute names some printers generate themselves (offsets, a 1-best supertag ...)
+            seen = set()
+            for nb in b:
+                for st in nb:
+                    for j, tok in enumerate(st.tree.tokens):
+                        if id(tok) not in seen and 'word' in tok:
+                            seen.add(id(tok))
+                            for key in rng.sample(['start', 'end', 'span', 'cat', 'id', 'category'], rng.randint(1, 3)):
+                                tok[key] = str(j) if key in ('start', 'end', 'span') else rng.choice(['NP', 'N', 'x'])
+            kind += '+annotated-tokens'
         yield kind, b
 
 
@@ -176,6 +226,7 @@ def run(ctx):
                     ctx.sample({'lang': lang, 'sequence': seq, 'changed': [c for _, c in obs], 'sentences': len(batch),
                                 'first_tree_auto': rc.render(lang, [batch[0]], 'auto')[1][:200]})
             flush(group)
+    fresh_process_renderings(ctx)
     # every ordered pair of formats f, g, f on a copy of one fixed batch per language (so no format escapes the random sequences)
     for lang in ('en', 'ja'):
         b0 = rc.licensed_batch(rng, lang, n=2, with_failed=True)
